@@ -500,6 +500,20 @@ func genPlan(t *rapid.T) Plan {
 		}
 		p.Opt.DisableAutoCompaction = true
 		p.Rules[0] = Rule{Kinds: []string{"read"}, Classes: []string{"sst"}, From: j + 3, Nth: rapid.IntRange(1, 6).Draw(t, "proben")}
+		if len(p.Steps[j+3].Tables) > 0 && rapid.IntRange(0, 2).Draw(t, "probelink") == 0 {
+			// Two cooperating faults in one ingestion: the hard link into the store
+			// fails, which makes the provider fall back to copying the file, and one
+			// operation of that copy (read of the source, write or sync of the
+			// destination) fails too.
+			p.Rules[0] = Rule{Kinds: []string{"meta"}, From: j + 3, Nth: 1}
+			second := Rule{Kinds: []string{rapid.SampledFrom([]string{"write", "sync", "read"}).Draw(t, "probelinkk")},
+				Classes: []string{"sst", "ext"}, From: j + 3, Nth: rapid.IntRange(1, 2).Draw(t, "probelinkn")}
+			if len(p.Rules) >= 2 {
+				p.Rules[1] = second
+			} else {
+				p.Rules = append(p.Rules, second)
+			}
+		}
 	}
 	p.End.Crash = rapid.IntRange(0, 9).Draw(t, "endcrash") < 4
 	p.End.Surv = []int{0, 1, rapid.IntRange(2, 1000).Draw(t, "surv")}
